@@ -170,6 +170,83 @@ def diagnosis_rule(prog, run, rid):
                witness={"name known to the called function": sorted(known), "not known": sorted(unknown)}, what="" if not why else "the first deviation is reported with the diagnosis of another one: " + why)
 
 
+def calls_left_rule(prog, run, rid):
+    """MockSupport::expectedCallsLeft (the 'calls are left' half of the end-of-test verdict) folded against a model of the mock's own
+    expectations and of its data list (0..3 entries, each a plain datum, a scope with nothing left or a scope with calls left): it
+    answers true iff the mock itself or ANY of its scopes has unfulfilled expectations."""
+    f = prog.fn("MockSupport::expectedCallsLeft")
+    run.analysed(f)
+    bad, ncase = None, 0
+    for own in (0, 1):
+        for n in range(0, 4):
+            for kinds in itertools.product(("datum", "scope-done", "scope-left"), repeat=n):
+                ncase += 1
+                nodes = [100 + i_ for i_ in range(n)]
+                scope_of = {nodes[i_]: (2000 + i_ if kinds[i_] != "datum" else 0) for i_ in range(n)}
+                left_of = {2000 + i_: (1 if kinds[i_] == "scope-left" else 0) for i_ in range(n)}
+                hooks = string_hooks({"MockSupport::checkExpectationsOfLastActualCall": lambda *a_: 0, "MockExpectedCallsList::hasUnfulfilledExpectations": lambda *a_: own,
+                                      "MockNamedValueList::begin": lambda *a_: nodes[0] if nodes else 0,
+                                      "MockNamedValueListNode::next": lambda o=None, *a_: (nodes[nodes.index(o) + 1] if o in nodes and nodes.index(o) + 1 < len(nodes) else 0),
+                                      "MockSupport::getMockSupport": lambda *a_: scope_of.get(a_[-1], 0),
+                                      "MockSupport::expectedCallsLeft": lambda o=None, *a_: left_of.get(o)})
+                ev = Evaluator(prog, f, env={"this": 50}, calls=hooks)
+                ev.pass_object = True
+                ev.heap_mode = True
+                ev.inline = {"MockSupport::hasCallsOutOfOrder"} - set(hooks)
+                try:
+                    ev.run_blocks(f.entry, max_steps=2000)
+                    r = getattr(ev, "ret", None)
+                    r = int(bool(r)) if isinstance(r, (int, bool)) else r
+                except Unknown as u:
+                    raise AnalysisBroken("C08.%s: expectedCallsLeft cannot be folded: %s" % (rid, u))
+                want = 1 if own or "scope-left" in kinds else 0
+                if r != want and bad is None:
+                    bad = "own expectations %s, data list %s: answers %s" % ("unfulfilled" if own else "fulfilled", list(kinds), r)
+    run.ob(rid, "expectedCallsLeft folded over %d models (own expectations x data lists of 0..3 plain data / finished scopes / scopes with calls left): true iff the mock or any scope has calls left" % ncase, f.site, bad is None,
+           witness=bad or "%d models" % ncase, what="" if bad is None else "an unfulfilled expectation in a scope is not reported at the end of the test (or a fulfilled scenario is): " + bad)
+
+
+def on_object_rule(prog, run, rid):
+    """MockCheckedActualCall::onObject folded over (call already failed, an expectation already matched, candidates left after pruning by
+    object): a failed call does nothing; otherwise the candidates are pruned by the object; no candidate and no match -> one unexpected-
+    object failure; else EVERY remaining candidate is told it was called on that object (a candidate with more parameters may still
+    become the match) and the call is completed only when nothing had matched yet."""
+    AC_ = "MockCheckedActualCall"
+    f = prog.fn(AC_ + "::onObject")
+    run.analysed(f)
+    bad, wit = None, []
+    for failed, matched, empty in itertools.product((0, 1), (0, 1), (0, 1)):
+        seq = []
+
+        def rec(name, ret=0):
+            return lambda *a_: (seq.append((name,) + tuple(x for x in a_[1:] if isinstance(x, int))), ret)[1]
+        hooks = string_hooks({AC_ + "::hasFailed": lambda *a_: failed, "MockExpectedCallsList::onlyKeepExpectationsOnObject": rec("prune"), "MockExpectedCallsList::isEmpty": lambda *a_: empty,
+                              "MockExpectedCallsList::wasPassedToObject": rec("mark"), AC_ + "::completeCallWhenMatchIsFound": rec("complete"), AC_ + "::failTest": rec("fail"),
+                              AC_ + "::getTest": lambda *a_: 11, AC_ + "::getName": lambda *a_: ("str", "f"), "MockUnexpectedObjectFailure::MockUnexpectedObjectFailure": lambda *a_: 0})
+        ev = Evaluator(prog, f, env={"this": 100, f.params[0]["name"]: 7777, "matchingExpectation_": 4242 if matched else 0}, calls=hooks)
+        ev.pass_object = True
+        ev.heap_mode = True
+        ev.optional_stubs = set(hooks)
+        try:
+            ev.run_blocks(f.entry, max_steps=600)
+        except Unknown as u:
+            raise AnalysisBroken("C08.%s: onObject cannot be folded: %s" % (rid, u))
+        kinds = [x[0] for x in seq]
+        if failed:
+            want = []
+        elif empty and not matched:
+            want = ["prune", "fail"]
+        else:
+            want = ["prune", "mark"] + ([] if matched else ["complete"])
+        wit.append({"failed": failed, "matched": matched, "no candidate left": empty, "does": kinds})
+        if kinds != want and bad is None:
+            bad = "call %s, %s, %s after pruning: does %s, expected %s" % ("already failed" if failed else "not failed", "an expectation already matched" if matched else "nothing matched yet", "no candidate left" if empty else "candidates left", kinds, want)
+        elif not failed and seq and seq[0] != ("prune", 7777) and bad is None:
+            bad = "the candidates are pruned with %s, the object of the call is 7777" % (seq[0][1:],)
+    run.ob(rid, "onObject folded over (failed, already matched, candidates left): prune by the object; fail once iff nothing can match; otherwise mark every remaining candidate and complete only an unmatched call", f.site, bad is None,
+           witness=bad or wit[:4], what=bad or "")
+
+
 def check(ctx, run):
     prog = ctx.program()
     run.assume("expectations are matched through the pruning primitives only (who-may-write on the candidate list is checked); list primitives are folded over every list of up to 3 expectations and every predicate pattern, which covers all states of their uniform per-node transitions")
@@ -451,6 +528,9 @@ def check(ctx, run):
         if chk and names.index("mock().checkExpectations()") > names.index("mock().clear()"):
             why.append("cleared before checking")
         run.ob("R6", "mock plugin post action [%s]" % p.describe(pp), pp.site, not why, witness=names, what="; ".join(why))
+
+    calls_left_rule(prog, run, "R6")
+    on_object_rule(prog, run, "R13")
 
     # ---------------- R7 ----------------------------------------------------
     for meth, cmpf in (("hasInputParameter", "equals"), ("hasOutputParameter", "compatibleForCopying")):
